@@ -703,6 +703,9 @@ for _p in ("C19", "C20"):
         "one sharing the generator), then 2000 earlier ones again: same answers, no two sources share a path.")
 PROPS["C18"]["rule"] = PROPS["C18"].get("rule", "") + (" kmux (client side): concurrent calls answered in every order, in a quarter of the runs every one refused with "
     "an errno of its own, back to back: each caller must see the QID / errno sent for its request (a reply object shared between calls shows as wrongerr / foreign).")
+PROPS["C15"]["level_text"] += (" The errno of a failing backend call is what the client gets (Session/Errors.lean): a Twrite / Tread whose WriteAt / ReadAt "
+    "fails is answered Rlerror(e) - whatever count the backend reports next to the error - with that single call made, the fid still bound and its "
+    "reference count back where it was (write_error_is_reported, read_error_is_reported).")
 PROPS["C10"]["level_text"] += (" Recycled response objects (Conc/RespPool.lean, after defect D20): over all clients of the process and every "
     "interleaving of calls starting, failing to send, being answered, connections failing and calls returning, a pooled response is referenced "
     "by no pending map and its channel is empty, no response serves two calls, and handleOne never blocks on a done channel while holding the "
